@@ -46,8 +46,15 @@ def _exec_wrapper(args):
     mod = importlib.import_module(modname)
     try:
         return {"cid": case.get("cid"), "records": mod.execute(case), "error": None}
-    except Exception:
-        return {"cid": case.get("cid"), "records": [], "error": traceback.format_exc()}
+    except Exception as e:
+        # Where was it raised?  An exception that escapes from the code under test (ufo2ft, or the libraries it drives) on an
+        # input the generator considers valid is a finding about that code ("the call must succeed"), not a failure of the
+        # machinery; one raised by the harness itself is a machinery failure.
+        tb = traceback.extract_tb(e.__traceback__)
+        origin = tb[-1].filename if tb else ""
+        lib_side = origin.startswith(REPO_LIB) or "/site-packages/" in origin
+        return {"cid": case.get("cid"), "records": [], "error": traceback.format_exc(),
+                "library_raised": (type(e).__name__ + ": " + str(e)[:200]) if lib_side else None}
 
 
 def run_cases(modname, cases, procs=16):
@@ -216,7 +223,11 @@ def standard_main(mod, tier, seed, replay=None):
     case_by_cid = {c.get("cid"): c for c in cases}
     for r in results:
         if r["error"]:
-            rep.machinery(f"case {r['cid']} could not be executed:\n{r['error']}")
+            if r.get("library_raised") and not replay:
+                rep.violation(r["cid"], "call-succeeds (" + r["library_raised"][:80] + ")",
+                              {"case": case_by_cid.get(r["cid"]), "traceback": r["error"][-3000:]})
+            else:
+                rep.machinery(f"case {r['cid']} could not be executed:\n{r['error']}")
             continue
         for rec in r["records"]:
             rec["_cid"] = r["cid"]
